@@ -67,7 +67,7 @@ fn write_summary(path: &str, prop: &str, st: &Stats, wall: f64, extra: Value) {
         "tolerated_accepted": st.tol_ok, "tolerated_rejected": st.tol_rej,
         "mutants_by_edit_kind": by_edit,
         "nviol": st.nviol, "violations": viol, "samples": st.samples,
-        "primed_presentations": st.primed, "prime_failed": st.prime_failed, "advisory_variant_total": st.variant_total, "advisory_variant_agree": st.variant_agree,
+        "primed_presentations": st.primed, "repeated_rejections": st.repeated, "prime_failed": st.prime_failed, "advisory_variant_total": st.variant_total, "advisory_variant_agree": st.variant_agree,
         "advisory_variant_disagree": st.variant_disagree,
         "wall_s": wall, "extra": extra,
     });
